@@ -234,20 +234,28 @@ def _hook_point(proc, hook, pos):
             raise exc
 
 
+class HookMixin:
+    """Overrides every lifecycle hook: records the call and raises only when a fault is armed for that point."""
+
+
 def _make_hook(name):
     def hook(self, *args, **kwargs):
         _hook_point(self, name, 'pre')
-        getattr(super(ProgBase, self), name)(*args, **kwargs)
+        getattr(super(HookMixin, self), name)(*args, **kwargs)
         _hook_point(self, name, 'post')
 
     hook.__name__ = name
     return hook
 
 
+for _h in HOOKS:
+    setattr(HookMixin, _h, _make_hook(_h))
+
+
 # --------------------------------------------------------------------------------------------
 # the interpreter
 # --------------------------------------------------------------------------------------------
-class ProgBase(ContextMixin, Process):
+class ProgBase(HookMixin, ContextMixin, Process):
     PROGRAM = {'steps': [{'async': False, 'body': [], 'ret': ['value', None]}]}
 
     @classmethod
@@ -391,10 +399,6 @@ class ProgBase(ContextMixin, Process):
             raise
         finally:
             self._t('exit', idx, outcome=outcome)
-
-
-for _h in HOOKS:
-    setattr(ProgBase, _h, _make_hook(_h))
 
 
 def _make_step(idx, is_async):
